@@ -293,6 +293,21 @@ def m_build(inst, key, expr):
         return m_project(inst, key + "prj", *expr[1:])
     if kind == "lshift":
         return m_lshift(inst, key + "<<", expr[1])
+    if kind == "range":
+        # for .. in f.iterRange(lo, hi[, start_pos]) / f.iterActive() / f.iterOccupancy(start_pos): the stored,
+        # non-empty elements from position start_pos on whose coordinate lies in [lo, hi); position = index
+        # in the fiber
+        _, name, lo, hi, start = expr
+        snap = inst.entry["fibers"][name]
+
+        def gen():
+            for idx in range(start or 0, len(snap)):
+                c, pres = snap[idx]
+                if hi is not None and c >= hi:
+                    break
+                if pres and (lo is None or c >= lo):
+                    yield (c, idx, idx)
+        return gen()
     if kind == "dense":
         # dense by-reference walk: every coordinate of the range, in order (no element is "read":
         # the library writes no iter row for such a loop, see check_session)
@@ -421,7 +436,7 @@ def _run_kernel(prep, log, on_outer_body):
 #    "z": [[c, v], ...], "z_shared": bool,        # initial destination content
 #    "proj": None | {"mul": m, "off": o, "interval": [lo, hi] | None, "start": n | None}}
 
-OPS = ["iter", "and", "lf", "lshift", "lshift_and", "lshift_lf", "project"]
+OPS = ["iter", "and", "lf", "lshift", "lshift_and", "lshift_lf", "project", "iter_range"]
 
 
 def _leaf_tensor(rank, shape, elems, name):
@@ -477,6 +492,10 @@ class OpProgram:
             ninst = len([1 for _, v in outer if v != 0]) if outer is not None else 1
         assert len(nest["inst"]) == ninst
         self.a = [_leaf_tensor("K", S, i["a"], "A") for i in nest["inst"]]
+        self.rng = nest.get("rng") if op == "iter_range" else None
+        if self.rng and self.rng["form"] == "active":
+            for t in self.a:
+                t.getRoot().setActive((self.rng["lo"], self.rng["hi"]))
         self.b = [_leaf_tensor("K", S, i.get("b", []), "B") for i in nest["inst"]]
         zshape = S if not self.proj else self.proj["mul"] * (S - 1) + self.proj["off"] + 1
         self.zshape = zshape
@@ -512,6 +531,16 @@ class OpProgram:
         op = self.op
         if op in ("iter", "lshift"):
             return a, ["fiber", "a"]
+        if op == "iter_range":
+            g = self.rng
+            expr = ["range", "a", g["lo"], g["hi"], g["start"]]
+            if g["form"] == "active":
+                return a.iterActive(), expr
+            if g["form"] == "occ_start":
+                return a.iterOccupancy(start_pos=g["start"]), expr
+            if g["start"] is not None:
+                return a.iterRange(g["lo"], g["hi"], start_pos=g["start"]), expr
+            return a.iterRange(g["lo"], g["hi"]), expr
         if op in ("and", "lshift_and"):
             return a & b, ["and", ["fiber", "a"], ["fiber", "b"]]
         if op in ("lf", "lshift_lf"):
@@ -1267,7 +1296,7 @@ def leaf_elems(draw, shape, p_empty=10):
 
 @st.composite
 def opnest_cases(draw):
-    op = draw(st.sampled_from(OPS + ["project", "project", "lshift"]))
+    op = draw(st.sampled_from(OPS + ["project", "project", "lshift", "iter_range"]))
     S = draw(st.sampled_from([2, 3, 4, 4, 5, 6]))
     outer = None
     dense = None
@@ -1322,6 +1351,32 @@ def opnest_cases(draw):
         if limit is not None and limit >= 0:
             proj["start"] = draw(st.integers(0, limit))
     nest = {"op": op, "shape": S, "outer": outer, "inst": insts, "proj": proj}
+    if op == "iter_range":
+        form = draw(st.sampled_from(["range", "active", "occ_start", "range_start", "range"]))
+        lo = draw(st.sampled_from(list(range(S))))
+        hi = draw(st.sampled_from(list(range(lo + 1, S + 1))))
+        if form in ("range", "range_start"):
+            # an open end on either side is legal for iterRange
+            lo = draw(st.sampled_from([lo, lo, None]))
+            hi = draw(st.sampled_from([hi, hi, None]))
+        if form == "occ_start":
+            lo = hi = None
+        start = None
+        if form in ("occ_start", "range_start"):
+            # a start position that is legal in every instance: inside the stored elements, skipping only
+            # coordinates below the range
+            limit = None
+            for inst in insts:
+                coords = [c for c, _ in inst["a"]]
+                lim = len(coords) - 1
+                if lo is not None:
+                    lim = min(lim, len([c for c in coords if c < lo]))
+                limit = lim if limit is None else min(limit, lim)
+            if limit is not None and limit >= 0:
+                start = draw(st.sampled_from(list(range(limit + 1))))
+            else:
+                form = "range"
+        nest["rng"] = {"form": form, "lo": lo, "hi": hi, "start": start}
     if dense is not None:
         nest["dense"] = dense
     if op.startswith("lshift"):
@@ -1337,6 +1392,11 @@ def check_opnest(case, rec):
     prog, ses, insts, traces = check_program(lambda: OpProgram(nest), cfg, rec, where)
     classify(rec, prog, ses, insts, traces)
     rec.cls("op-" + nest["op"])
+    if nest.get("rng"):
+        g = nest["rng"]
+        rec.cls("range-" + g["form"])
+        rec.cls("range-skips-stored-elements", any(i.iter_rows and i.iter_rows[0][1] > 0 for i in insts
+                                                    if i.entry["expr"][0] == "range"))
     rec.cls("outer-loop", nest["outer"] is not None)
     dn = nest.get("dense")
     rec.cls("dense-ref-outer-loop", dn is not None)
